@@ -328,6 +328,13 @@ func runInstance(prog *sx.Program, h Harness, params []int64, tier string, known
 	}
 	initPkgs = append(initPkgs, h.InitAbs...)
 	cfg := sx.Config{InitPkgs: initPkgs, StubPkgs: stubPkgs, MaxUnwind: h.Unwind, LoopBounds: h.LoopBounds}
+	// budgets: an instance that outgrows them is reported as inconclusive (broken), never as held
+	cfg.MaxTerms = 6000000
+	cfg.Deadline = 10 * time.Minute
+	if tier == "thorough" {
+		cfg.MaxTerms = 12000000
+		cfg.Deadline = 40 * time.Minute
+	}
 	x := sx.NewExec(prog.Prog, cfg)
 	x.InstallRedirects(prog)
 	defer x.Close()
